@@ -12,7 +12,7 @@ from ..alg import Sym, is_zero, Unsupported
 from ..flow import lexically_inside, Flow
 
 SCORES = "typhon/retrieval/scores.py"
-EXPECT = {"C19.exact": 5, "C19.pinball": 5, "C19.shapes": 2, "C19.flat": 2, "C19.mape": 6, "C19.bias": 6}
+EXPECT = {"C19.args": 4, "C19.exact": 5, "C19.pinball": 5, "C19.shapes": 2, "C19.flat": 2, "C19.mape": 6, "C19.bias": 6}
 
 
 def _elementwise(ctx, fname):
@@ -355,3 +355,6 @@ def run(ctx):
     ctx.attempt(rule_shapes, ctx)
     ctx.attempt(percent_rule, ctx, "mape", "C19.mape", lambda q: (q, q))
     ctx.attempt(percent_rule, ctx, "bias", "C19.bias", lambda q: (q, -q))
+    # the caller's arguments (arrays, filter / fill dictionaries) are not modified: an in-place update makes the next call on the same objects wrong
+    from ..purity import rule_pure as _rule_args
+    ctx.attempt(_rule_args, ctx, "C19.args", [('typhon/retrieval/scores.py', 'mape'), ('typhon/retrieval/scores.py', 'bias'), ('typhon/retrieval/scores.py', 'quantile_score'), ('typhon/retrieval/scores.py', 'mean_quantile_score')], "the caller's arguments are not modified in place")
